@@ -295,7 +295,8 @@ Inductive op :=
 | ORS (k:N) (f:nat) | OWS (k:N) (f:nat) (* stream_socket::async_read_some / async_write_some with user handler k *)
 | ORA (k:N) (f:nat) (n:N) | OWA (k:N) (f:nat) (n:N) (* stream_socket::async_read / async_write of n bytes (reader_all / writer_all) *)
 | ORO (f:nat) (* a new socket that receives the descriptor NUMBER of the closed device f is assigned to the device *)
-| OTO (k:N) (ob:N) (d:Z) | OCO (ob:N) (* deadline_timer OBJECT ob: expires_at + async_wait(handler k) / cancel() *).
+| OTO (k:N) (ob:N) (d:Z) | OCO (ob:N) (* deadline_timer OBJECT ob: expires_at + async_wait(handler k) / cancel() *)
+| ORL (f:nat) | OAT (f:nat) | OAS (f:nat) (* basic_io_device::release() / attach(same descriptor) / assign(same descriptor) on a non-owning device *).
 Record osfd := mkOs { closedA : bool; hup : bool; inq : bool (* = 0 < inb *); full : bool;
                       nval : option (bool*bool) (* poll reactor: interest it silently dropped after POLLNVAL *) ;
                       inb : N (* bytes the peer wrote that side A has not read yet *) }.
@@ -312,19 +313,23 @@ Record sim := mkSim { ms : st; os : list osfd; phases : list (list op); bodies :
                       nextw : N (* next internal token *);
                       (* deadline_timer objects: event_id_ as the token it refers to (None = -1); token -> object; what the script expects to
                          be the outstanding wait of the object (last armed, not completed, not cancelled); effective cancels (token, time) *)
-                      tobj : list (N * option N); towner : list (N*N); tnaive : list (N * option N); tcans : list (N*N) }.
-Definition set_ms (x:sim) v := mkSim v (os x) (phases x) (bodies x) (stage x) (tmeta x) (sout x) (rk x) (pickhi x) (mark x) (pickall x) (comp x) (cprog x) (cimm x) (olog x) (nextw x) (tobj x) (towner x) (tnaive x) (tcans x).
-Definition set_os (x:sim) v := mkSim (ms x) v (phases x) (bodies x) (stage x) (tmeta x) (sout x) (rk x) (pickhi x) (mark x) (pickall x) (comp x) (cprog x) (cimm x) (olog x) (nextw x) (tobj x) (towner x) (tnaive x) (tcans x).
-Definition set_phases (x:sim) v := mkSim (ms x) (os x) v (bodies x) (stage x) (tmeta x) (sout x) (rk x) (pickhi x) (mark x) (pickall x) (comp x) (cprog x) (cimm x) (olog x) (nextw x) (tobj x) (towner x) (tnaive x) (tcans x).
-Definition set_stage (x:sim) v := mkSim (ms x) (os x) (phases x) (bodies x) v (tmeta x) (sout x) (rk x) (pickhi x) (mark x) (pickall x) (comp x) (cprog x) (cimm x) (olog x) (nextw x) (tobj x) (towner x) (tnaive x) (tcans x).
-Definition set_tmeta (x:sim) v := mkSim (ms x) (os x) (phases x) (bodies x) (stage x) v (sout x) (rk x) (pickhi x) (mark x) (pickall x) (comp x) (cprog x) (cimm x) (olog x) (nextw x) (tobj x) (towner x) (tnaive x) (tcans x).
-Definition set_mark (x:sim) v := mkSim (ms x) (os x) (phases x) (bodies x) (stage x) (tmeta x) (sout x) (rk x) (pickhi x) v (pickall x) (comp x) (cprog x) (cimm x) (olog x) (nextw x) (tobj x) (towner x) (tnaive x) (tcans x).
-Definition set_sout (x:sim) v := mkSim (ms x) (os x) (phases x) (bodies x) (stage x) (tmeta x) v (rk x) (pickhi x) (mark x) (pickall x) (comp x) (cprog x) (cimm x) (olog x) (nextw x) (tobj x) (towner x) (tnaive x) (tcans x).
+                      tobj : list (N * option N); towner : list (N*N); tnaive : list (N * option N); tcans : list (N*N);
+                      nown : list nat (* devices that do NOT own their descriptor (owner_ == false): close() cancels the waits but
+                                         neither closes the descriptor nor forgets it *) }.
+Definition set_ms (x:sim) v := mkSim v (os x) (phases x) (bodies x) (stage x) (tmeta x) (sout x) (rk x) (pickhi x) (mark x) (pickall x) (comp x) (cprog x) (cimm x) (olog x) (nextw x) (tobj x) (towner x) (tnaive x) (tcans x) (nown x).
+Definition set_os (x:sim) v := mkSim (ms x) v (phases x) (bodies x) (stage x) (tmeta x) (sout x) (rk x) (pickhi x) (mark x) (pickall x) (comp x) (cprog x) (cimm x) (olog x) (nextw x) (tobj x) (towner x) (tnaive x) (tcans x) (nown x).
+Definition set_phases (x:sim) v := mkSim (ms x) (os x) v (bodies x) (stage x) (tmeta x) (sout x) (rk x) (pickhi x) (mark x) (pickall x) (comp x) (cprog x) (cimm x) (olog x) (nextw x) (tobj x) (towner x) (tnaive x) (tcans x) (nown x).
+Definition set_stage (x:sim) v := mkSim (ms x) (os x) (phases x) (bodies x) v (tmeta x) (sout x) (rk x) (pickhi x) (mark x) (pickall x) (comp x) (cprog x) (cimm x) (olog x) (nextw x) (tobj x) (towner x) (tnaive x) (tcans x) (nown x).
+Definition set_tmeta (x:sim) v := mkSim (ms x) (os x) (phases x) (bodies x) (stage x) v (sout x) (rk x) (pickhi x) (mark x) (pickall x) (comp x) (cprog x) (cimm x) (olog x) (nextw x) (tobj x) (towner x) (tnaive x) (tcans x) (nown x).
+Definition set_mark (x:sim) v := mkSim (ms x) (os x) (phases x) (bodies x) (stage x) (tmeta x) (sout x) (rk x) (pickhi x) v (pickall x) (comp x) (cprog x) (cimm x) (olog x) (nextw x) (tobj x) (towner x) (tnaive x) (tcans x) (nown x).
+Definition set_sout (x:sim) v := mkSim (ms x) (os x) (phases x) (bodies x) (stage x) (tmeta x) v (rk x) (pickhi x) (mark x) (pickall x) (comp x) (cprog x) (cimm x) (olog x) (nextw x) (tobj x) (towner x) (tnaive x) (tcans x) (nown x).
 
-Definition set_comp (x:sim) c i n := mkSim (ms x) (os x) (phases x) (bodies x) (stage x) (tmeta x) (sout x) (rk x) (pickhi x) (mark x) (pickall x) c (cprog x) i (olog x) n (tobj x) (towner x) (tnaive x) (tcans x).
-Definition set_cprog (x:sim) v := mkSim (ms x) (os x) (phases x) (bodies x) (stage x) (tmeta x) (sout x) (rk x) (pickhi x) (mark x) (pickall x) (comp x) v (cimm x) (olog x) (nextw x) (tobj x) (towner x) (tnaive x) (tcans x).
-Definition set_olog (x:sim) v := mkSim (ms x) (os x) (phases x) (bodies x) (stage x) (tmeta x) (sout x) (rk x) (pickhi x) (mark x) (pickall x) (comp x) (cprog x) (cimm x) v (nextw x) (tobj x) (towner x) (tnaive x) (tcans x).
-Definition set_tim (x:sim) a b c d := mkSim (ms x) (os x) (phases x) (bodies x) (stage x) (tmeta x) (sout x) (rk x) (pickhi x) (mark x) (pickall x) (comp x) (cprog x) (cimm x) (olog x) (nextw x) a b c d.
+Definition set_comp (x:sim) c i n := mkSim (ms x) (os x) (phases x) (bodies x) (stage x) (tmeta x) (sout x) (rk x) (pickhi x) (mark x) (pickall x) c (cprog x) i (olog x) n (tobj x) (towner x) (tnaive x) (tcans x) (nown x).
+Definition set_cprog (x:sim) v := mkSim (ms x) (os x) (phases x) (bodies x) (stage x) (tmeta x) (sout x) (rk x) (pickhi x) (mark x) (pickall x) (comp x) v (cimm x) (olog x) (nextw x) (tobj x) (towner x) (tnaive x) (tcans x) (nown x).
+Definition set_olog (x:sim) v := mkSim (ms x) (os x) (phases x) (bodies x) (stage x) (tmeta x) (sout x) (rk x) (pickhi x) (mark x) (pickall x) (comp x) (cprog x) (cimm x) v (nextw x) (tobj x) (towner x) (tnaive x) (tcans x) (nown x).
+Definition set_tim (x:sim) a b c d := mkSim (ms x) (os x) (phases x) (bodies x) (stage x) (tmeta x) (sout x) (rk x) (pickhi x) (mark x) (pickall x) (comp x) (cprog x) (cimm x) (olog x) (nextw x) a b c d (nown x).
+Definition set_nown (x:sim) v := mkSim (ms x) (os x) (phases x) (bodies x) (stage x) (tmeta x) (sout x) (rk x) (pickhi x) (mark x) (pickall x) (comp x) (cprog x) (cimm x) (olog x) (nextw x) (tobj x) (towner x) (tnaive x) (tcans x) v.
+Definition not_owner (x:sim) (f:nat) : bool := existsb (Nat.eqb f) (nown x).
 Definition stp (l:label) (x:sim) : sim := set_ms x (step l (ms x)).
 Definition os_get (x:sim) (f:nat) : osfd := nth f (os x) os0.
 Fixpoint list_put {A} (l:list A) (i:nat) (v:A) : list A :=
@@ -401,6 +406,7 @@ Definition do_op (o:op) (x:sim) : sim :=
   | OCF f => stp (LCancelIo (devfd x f)) x
   | OCL f => let o := os_get x f in
              if closedA o then x
+             else if not_owner x f then stp (LCancelIo (Z.of_nat f)) x   (* close() of a non-owning device: cancel(), nothing else *)
              else os_put (stp (LCancelIo (Z.of_nat f)) x) f (mkOs true (hup o) (inq o) (full o) (nval o) (inb o))
   | OW f => let o := os_get x f in
             if closedA o || hup o then x else os_put x f (mkOs false false true (full o) (nval o) (inb o + 1))
@@ -415,6 +421,14 @@ Definition do_op (o:op) (x:sim) : sim :=
   | OA d => stp (LTick d) x
   | OX => stp LStop x
   | ORO f => let o := os_get x f in if closedA o then os_put x f os0 else x
+  | ORL f => if closedA (os_get x f) || not_owner x f then x else set_nown x (f :: nown x)
+  (* attach(fd) = close(e) - which cancels the waits and closes only an owned descriptor - then fd_ = fd, owner_ = false; the script
+     attaches the descriptor the device already has, after release() *)
+  | OAT f => if closedA (os_get x f) then x
+             else let x1 := stp (LCancelIo (Z.of_nat f)) x in if not_owner x f then x1 else set_nown x1 (f :: nown x1)
+  (* assign(fd) on a non-owning device with its own descriptor: close(e) cancels, then owner_ = true *)
+  | OAS f => if closedA (os_get x f) || negb (not_owner x f) then x
+             else set_nown (stp (LCancelIo (Z.of_nat f)) x) (filter (fun g => negb (Nat.eqb g f)) (nown x))
   | OTO k ob d =>
       (* deadline_timer::async_wait: event_id_ = set_timer_event(deadline_, waiter) *)
       let dl := Z.to_N (Z.of_N (clock (ms x)) + d) in
@@ -565,7 +579,7 @@ Fixpoint run_sim (fuel:nat) (x:sim) : sim * bool :=
 
 Definition START_MS : N := 100000.
 Definition sim0 (r:rkind) (hi al:bool) (nfd:nat) (ph:list (list op)) (bd:list (N*list op)) : sim :=
-  mkSim (set_clock st0 START_MS) (repeat os0 nfd) ph bd 0%nat [] [] r hi 0%nat al [] [] [] [] 1000000 [] [] [] [].
+  mkSim (set_clock st0 START_MS) (repeat os0 nfd) ph bd 0%nat [] [] r hi 0%nat al [] [] [] [] 1000000 [] [] [] [] [].
 Definition run_script (fuel:nat) (r:rkind) (hi al:bool) (nfd:nat) (ph:list (list op)) (bd:list (N*list op)) : sim * bool :=
   let x := sim0 r hi al nfd ph bd in
   let x1 := match phases x with ops::rest => do_ops ops (set_phases x rest) | [] => x end in
